@@ -392,9 +392,12 @@ func (x *UnsafeAnyBSlice[E]) GetByRangeE(start int, end int) ([]E, error) {
 		return nil, errors.New(fmt.Sprintf("invalid range:%d-%d, ln:%d", start, end, ln))
 	}
 	v := x.e[start:end]
+	if v == nil {
+		return nil, nil
+	}
 	cp := make([]E, len(v))
 	copy(cp, v)
-	return v, nil
+	return cp, nil
 }
 
 func (x *UnsafeAnyBSlice[E]) SetByIndex(index int, e E) {
